@@ -170,7 +170,7 @@ def run(case):
             start_injector(w, tap, shift(case.get('workload', [])))
             if case.get('workload_b'):
                 start_injector(w, tap, shift(case.get('workload_b', [])), src='srcB')
-        w.run(max_steps=20000)
+        w.run(max_steps=20000 * (40 if case.get('long_life') else 1))
     finally:
         wire_mod.random = saved
     stats = {}
@@ -303,3 +303,16 @@ def check_wire(w, case, nm):
         viol.append(('C10.2', '%s delivered %r, entry order of the kept packets is %r' %
                      (nm, outorder, [x[0] for x in expected_order])))
     return viol, stats, nontrivial
+
+
+_gen_short = gen
+
+
+def gen(rng, tier):
+    case = _gen_short(rng, tier)
+    if rng.random() < 1 / 80 and not case.get('cable') and not case.get('reconf') and not case.get('workload_b') and not case.get('late_out') and len(case.get('workload', [])) >= 3:
+        # a long life: the same pattern of bursts, gaps and coincidences over and over, thousands of packets in all
+        from ..net import stretch_workload
+        case['workload'] = stretch_workload(case['workload'], 2600)
+        case['long_life'] = True
+    return case
